@@ -62,7 +62,13 @@ func genMsg(r *Rng, o msgOpts) *GenMsg {
 		opt := genOPT(r)
 		opt.TTL &= 0x00FFFFFF // extended RCODE 0
 		opt.Wire = assembleRR(nil, opt.Type, opt.Class, opt.TTL, opt.Rdata)
-		g.Ex = append(g.Ex, opt)
+		if len(g.Ex) > 0 && r.Chance(35) {
+			// RFC 6891 6.1.1: the OPT record may be anywhere in the additional section
+			i := r.Intn(len(g.Ex))
+			g.Ex = append(g.Ex[:i], append([]*GenRR{opt}, g.Ex[i:]...)...)
+		} else {
+			g.Ex = append(g.Ex, opt)
+		}
 	}
 	bits := uint16(r.U64()) & 0xFFF0 // RCODE 0 so that no OPT is needed
 	if o.response {
